@@ -389,3 +389,41 @@ def write_evidence(pid, tier, level, coverage, wall, violations, assumptions):
     with open(os.path.join(EVID, f"{pid}.json"), "w") as fh:
         json.dump(ev, fh, indent=1, default=str)
     return ev
+
+
+def tlc_universe(module, uid, init, next_, extra_env=None, tag=None, timeout=1800):
+    """Evaluate the ASSUME-time universe emission of spec/<module>.tla for universe `uid` and
+    return the JSON list.  The result depends on the specification only: it is cached under
+    out/cache keyed by the content of the module (and of the modules it extends)."""
+    import hashlib
+    h = hashlib.sha256()
+    for f in sorted(os.listdir(SPEC)):
+        if f.endswith(".tla"):
+            with open(os.path.join(SPEC, f), "rb") as fh:
+                h.update(f.encode() + fh.read())
+    key = hashlib.sha256((h.hexdigest() + module + uid + json.dumps(extra_env or {}, sort_keys=True)).encode()).hexdigest()[:20]
+    cdir = os.path.join(OUT, "cache")
+    os.makedirs(cdir, exist_ok=True)
+    cpath = os.path.join(cdir, f"universe-{module}-{uid}-{key}.json")
+    if os.path.exists(cpath):
+        with open(cpath) as fh:
+            return json.load(fh)
+    out = os.path.join(OUT, f"universe_{module}_{uid}_{os.getpid()}.json")
+    cfg = os.path.join(OUT, f"u-{module}-{os.getpid()}.cfg")
+    with open(cfg, "w") as fh:
+        fh.write(f"INIT {init}\nNEXT {next_}\nCHECK_DEADLOCK FALSE\n")
+    meta = os.path.join(OUT, "tlc", f"u-{module}-{uid}-{os.getpid()}")
+    env = dict(os.environ, UNIVERSE_ID=uid, UNIVERSE_OUT=out)
+    env.update({k: str(v) for k, v in (extra_env or {}).items()})
+    p = subprocess.run(["tlc", "-workers", "1", "-metadir", meta, "-noGenerateSpecTE", "-config", cfg,
+                        module + ".tla"], cwd=SPEC, env=env, capture_output=True, text=True, timeout=timeout)
+    shutil.rmtree(meta, ignore_errors=True)
+    if '"UNIVERSE"' not in p.stdout:
+        raise Machinery(f"{module}.tla: universe {uid} could not be emitted (or its theorem failed)\n" + p.stdout[-3000:])
+    with open(out) as fh:
+        U = json.load(fh)
+    os.remove(out)
+    U.sort(key=lambda d: json.dumps(d, sort_keys=True))
+    with open(cpath, "w") as fh:
+        json.dump(U, fh)
+    return U
